@@ -372,12 +372,12 @@ func (c *Float) Ident() string {
 			return fmt.Sprintf("0x%X", bits)
 		}
 		if c.X.IsInf() || !float.IsExact32(c.X) {
-			f, _ := c.X.Float64()
-			bits := math.Float64bits(f)
+			// Round to the nearest float (not toward zero); the double holding
+			// a float has zeros in its last 29 bits of significand.
+			f32, _ := c.X.Float32()
+			bits := math.Float64bits(float64(f32))
 			// Note, to match Clang output we do not zero-pad the hexadecimal
 			// output.
-			// zero out last 29 bits.
-			bits &^= 0x1FFFFFFF
 			return fmt.Sprintf("0x%X", bits)
 		}
 		// c is representable without loss as floating-point literal, this case is
